@@ -140,9 +140,14 @@ def body_exp(name, body, names):
     m = re.fullmatch(CALL + r";", b)
     if m and ";" not in m.group(3):
         return "BVoid %s %s %s" % (q(m.group(1)), q(m.group(2)), args_exp(m.group(3), names))
-    m = re.fullmatch(r"if \(!(\w+)\(\)\) \{ return (\w+); \} return (\w+)\(\);", b)
+    # the three ways of writing "has ? get : default"
+    m = re.fullmatch(r"if \(!(\w+)\(\)\) (?:\{ )?return (\w+);(?: \})? return (\w+)\(\);", b)
     if m and m.group(2) in names:
         return "BOrDefault %s %d %s" % (q(m.group(1)), names.index(m.group(2)), q(m.group(3)))
+    m = re.fullmatch(r"if \((\w+)\(\)\) (?:\{ )?return (\w+)\(\);(?: \})? return (\w+);", b) or \
+        re.fullmatch(r"return (\w+)\(\) \? (\w+)\(\) : (\w+);", b)
+    if m and m.group(3) in names:
+        return "BOrDefault %s %d %s" % (q(m.group(1)), names.index(m.group(3)), q(m.group(2)))
     for pat, w in ((r"return " + CALL + r" \? 1 : 0;", "WBool01"), (r"return \(void \(\*\)\(\)\) ?" + CALL + r";", "WFunCast"),
                    (r"return getMockValueCFromNamedValue\(" + CALL + r"\);", "WValueC"), (r"return " + CALL + r";", "WNone")):
         m = re.fullmatch(pat, b)
